@@ -338,25 +338,30 @@ def discharge(ctx, I, s, handles, need):
             return U('U3', ok, 'pixel access guarded by 0 <= x < image width and 0 <= y < image height')
         if kind == 'bounds':
             ok_, why = need('I2')
-            idx = strip_casts(d['index_term'])
-            # (y - y0) * width + (x - x0) with y in y0..y0+height, x in x0..x0+width
-            shape = idx[0] == 'bin' and idx[1] == 'Add' and strip_casts(idx[2])[0] == 'bin' and strip_casts(idx[2])[1] == 'Mul'
-            if shape:
-                mul = strip_casts(idx[2])
-                dy, w = strip_casts(mul[2]), strip_casts(mul[3])
-                dx = strip_casts(idx[3])
-                sz = render.param_named(b, ty_contains='cel::ImageSize')
-
-                def range_ok(diff, fld):
-                    if not (diff[0] == 'bin' and diff[1] == 'Sub' and strip_casts(diff[2])[0] == 'next'):
-                        return False
-                    rg = q.unwrap_into_iter(strip_casts(diff[2])[1])
-                    if not (rg[0] == 'agg' and rg[1] == 'std::ops::Range'):
-                        return False
-                    st_, en = strip_casts(dict(rg[3])['start']), strip_casts(dict(rg[3])['end'])
-                    return st_ == strip_casts(diff[3]) and en[0] == 'bin' and en[1] == 'Add' and strip_casts(en[2]) == st_ and \
-                        is_param_path(strip_casts(en[3]), sz, [fld])
-                shape = range_ok(dy, 'height') and range_ok(dx, 'width') and is_param_path(w, sz, ['width'])
+            import poly as PL
+            sz = render.param_named(b, ty_contains='cel::ImageSize')
+            # index == (vy - oy) * width + (vx - ox), vy / vx loop variables running over (a sub-range of) oy..oy+height / ox..ox+width
+            # (origins may be 0: loops over the cel's own rows and columns); compared as polynomials, so hoisting `row * width` is fine
+            p_ = PL.poly(d['index_term'])
+            W = PL.canon(('field', ('param', sz, None), 'width'))
+            shape = False
+            vys = [a for k in p_ if len(k) == 2 and W in k for a in k if a != W and PL.loop_var_end(a) is not None]
+            vxs = [k[0] for k in p_ if len(k) == 1 and PL.loop_var_end(k[0]) is not None]
+            if len(vys) == 1 and len(vxs) == 1:
+                oy = render.offset_origin(vys[0], lambda t_: PL.canon(t_) == PL.canon(('field', ('param', sz, None), 'height')))
+                ox = render.offset_origin(vxs[0], lambda t_: PL.canon(t_) == W)
+                if oy is not None and ox is not None:
+                    want = {}
+                    for cf, mono in ((1, (vys[0], W)), (1, (vxs[0],))):
+                        for k_, v_ in PL.make((cf,) + mono).items():
+                            want[k_] = want.get(k_, 0) + v_
+                    for k_, v_ in PL.poly(oy).items():
+                        kk = tuple(sorted(k_ + (W,), key=repr))
+                        want[kk] = want.get(kk, 0) - v_
+                    for k_, v_ in PL.poly(ox).items():
+                        want[k_] = want.get(k_, 0) - v_
+                    want = {k_: v_ for k_, v_ in want.items() if v_ != 0}
+                    shape = want == p_
             wc = fx.body(AF + 'write_cel')
             same = False
             for c in q.calls(wc, fn):
@@ -403,12 +408,10 @@ def discharge(ctx, I, s, handles, need):
                 tsz = ts[0][2][1]
 
                 def lv2(x, getter):
-                    x = strip_casts(x)
-                    if x[0] != 'next':
-                        return False
-                    rg = q.unwrap_into_iter(x[1])
-                    en = strip_casts(dict(rg[3])['end']) if rg[0] == 'agg' else None
-                    return en is not None and en[0] == 'call' and en[1].endswith('TileSize::' + getter) and en[2][0] == tsz
+                    # a loop variable running inside 0..tile width/height (the whole range, or a sub-range cut by max/min/clamp)
+                    import poly as PL
+                    want_ = PL.canon(('call', 'asefile::tileset::TileSize::' + getter, (tsz,), None))
+                    return PL.within_zero_to(strip_casts(x), lambda t_: t_ == want_)
                 mul = strip_casts(idx[2])
                 ok = mul[0] == 'bin' and mul[1] == 'Mul' and lv2(mul[2], 'height') and lv2(idx[3], 'width') and \
                     strip_casts(mul[3])[0] == 'call' and strip_casts(mul[3])[1].endswith('TileSize::width') and strip_casts(mul[3])[2][0] == tsz
